@@ -225,6 +225,15 @@ def r02_10(ctx, repo):
                             for x in ast.walk(l.target):
                                 if isinstance(x, ast.Name):
                                     ds.add(x.id)
+            for g in ast.walk(fn):
+                if isinstance(g, ast.comprehension):
+                    names = {x.id for x in ast.walk(g.iter)
+                             if isinstance(x, ast.Name)}
+                    for p, ds in derived.items():
+                        if names & ds:
+                            for x in ast.walk(g.target):
+                                if isinstance(x, ast.Name):
+                                    ds.add(x.id)
             n += 1
             construct = '%s.%s' % (cname, mname)
             bad = False
